@@ -105,9 +105,12 @@ func (j *concJob) newOS(t *simrt.Tape) *simos.OS {
 	return o
 }
 
+var concRuns int
+
 func (*hconc) Run(rc *core.RunCtx) *core.RunResult {
 	res := core.NewResult()
 	t := rc.T
+	concRuns++
 	samples := concPool()
 	if len(samples) == 0 {
 		res.Violate("HARNESS", "no-corpus", "hconc", "no samples harvested")
@@ -146,6 +149,16 @@ func (*hconc) Run(rc *core.RunCtx) *core.RunResult {
 			if i == 0 {
 				// consecutive run indices walk the pool so that every format gets its turn
 				si = (rc.Idx + t.Intn(2)) % len(samples)
+				if rc.Race && concRuns == 1 {
+					// first run of this process, everything lazy is still cold: twins that go
+					// through the probe touch the process-wide tables first, and together
+					for k, s := range samples {
+						if s.Format == "" {
+							si = k
+							break
+						}
+					}
+				}
 			}
 			j = &concJob{s: samples[si], prog: concProgs[t.Intn(len(concProgs))]}
 			j.optForce = t.Intn(8) == 0 && j.s.Format != ""
